@@ -14,6 +14,7 @@
 From Coq Require Import List NArith Bool.
 From GL Require Import Store.Lifecycle Store.LifecycleLocal Store.LifecycleProofs.
 From GL Require Import Base.Bytes Store.FileStorage Store.FileStorageProofs.
+From GL Require Store.ApiTotality Store.ApiTotalityProofs.
 From Coq Require Import ZArith.
 Import ListNotations.
 Open Scope nat_scope.
@@ -370,3 +371,47 @@ Example C18_file_storage_nonvacuous :
   nth_error (p_stors ex_proc) 0 = Some (ST false false (Some 0%N) 1%N) /\
   snd (fst (fstep (PR false OsFree []) (FOpenFile true))) = SErrNotExist.
 Proof. exact ex_proc_reachable. Qed.
+
+(* ---- 11. API totality (Store/ApiTotality.v): the finite table (exported entry point x argument class -> allowed outcome
+   classes: 0 ok, 1 error, 2 panic, 3 hang, 4 huge allocation, 5 the process died) that the sweep of the whole public
+   surface (harness/cmd/c18/api*.go) is evaluated against on every run ((K) cases KApi / KApiEnum).
+   For EVERY entry point name and EVERY argument class name (listed or not, exercised or not):
+   no outcome table allows a hang; an argument class that is not listed as an exception of its entry point must
+   RETURN (exactly ok and error are allowed); the death of the process is tolerated in one place only (Open with an
+   option that is a size in bytes set to 2^31 / MaxInt); an entry point without a row allows nothing, so that an
+   exported function or method added to goleveldb is a mismatch until it is classified. *)
+From Coq Require Import String.
+Local Open Scope string_scope.
+Local Open Scope N_scope.
+
+Theorem C18_api_totality_table : forall (e c : String.string),
+  ApiTotality.outcome_allowed e c ApiTotality.oc_hang = false /\
+  (forall ex o, ApiTotality.lookup_row ApiTotality.api_totality_table e = Some ex -> ApiTotality.lookup_exc ex c = None ->
+     (ApiTotality.outcome_allowed e c o = true <-> o = ApiTotality.oc_ok \/ o = ApiTotality.oc_error)).
+Proof. exact (fun e c => conj (ApiTotalityProofs.api_never_hangs e c) (fun ex o => ApiTotalityProofs.api_default_returns e ex c o)). Qed.
+Print Assumptions C18_api_totality_table.
+
+Theorem C18_api_totality_died_only_option_sizes : forall (e c : String.string),
+  ApiTotality.outcome_allowed e c ApiTotality.oc_died = true ->
+  e = "leveldb.Open"%string /\ c = "option extreme (a size in bytes)"%string.
+Proof. exact ApiTotalityProofs.api_died_only_option_sizes. Qed.
+Print Assumptions C18_api_totality_died_only_option_sizes.
+
+Theorem C18_api_totality_unknown_entry_rejected : forall (e c : String.string) o,
+  ApiTotality.lookup_row ApiTotality.api_totality_table e = None -> ApiTotality.outcome_allowed e c o = false.
+Proof. exact ApiTotalityProofs.api_unknown_entry_rejected. Qed.
+Print Assumptions C18_api_totality_unknown_entry_rejected.
+
+(* non-vacuity: the repaired GetProperty class must return (a panic there is a mismatch); a documented panic is allowed;
+   an out-of-order Append must be an error; rows are distinct and masks sane *)
+Example C18_api_totality_nonvacuous :
+  ApiTotality.outcome_allowed "leveldb.DB.GetProperty" "name level out of range" ApiTotality.oc_panic = false /\
+  ApiTotality.outcome_allowed "leveldb.DB.GetProperty" "name level out of range" ApiTotality.oc_ok = true /\
+  ApiTotality.outcome_allowed "leveldb.Batch.Load" "bytes arbitrary" ApiTotality.oc_hang = false /\
+  ApiTotality.outcome_allowed "util.Buffer.Truncate" "n out of range" ApiTotality.oc_panic = true /\
+  ApiTotality.outcome_allowed "table.Writer.Append" "keys out of order" ApiTotality.oc_ok = false /\
+  ApiTotality.outcome_allowed "table.Writer.Append" "keys out of order" ApiTotality.oc_error = true /\
+  ApiTotality.outcome_allowed "leveldb.NoSuchFunction" "-" ApiTotality.oc_ok = false /\
+  ApiTotality.table_rows_distinct = true /\ ApiTotality.table_masks_sane = true /\
+  List.length ApiTotality.api_totality_table = 245%nat.
+Proof. vm_compute. repeat split; reflexivity. Qed.
